@@ -14,12 +14,12 @@ Reader == \/ (\E n \in 1..Full : RSendStart(n)) /\ budget > 0 /\ budget' = budge
           \/ (RCheckStop \/ REnqueue \/ RSendFail) /\ KB /\ KA
           \/ RSendDone(rlen < Full) /\ KB /\ KA                     \* a batch that is not full is the last one
           \/ REofExit /\ budget = 0 /\ KB /\ KA                     \* the input ended at a batch boundary
-Analysis == \/ (ACheck \/ ATake \/ ARecv(arem) \/ ARecvDisc \/ AView \/ AJoinStart \/ AExit) /\ KB /\ KA
+Analysis == \/ (ACheck \/ ATake \/ ARecv(arem) \/ ARecvDisc \/ AView \/ AJoinStart \/ AExit \/ ADrop) /\ KB /\ KA
             \/ (\E l \in Links : ASpawn(l)) /\ KB /\ KA
             \/ (\E l \in Links : ADispatchStartL(l)) /\ KB
             \/ AEnqueue /\ KB
 Validator(l) == (VTake(l) \/ VRecv(l) \/ VExit(l)) /\ KB /\ KA
-Writer == (WTake \/ WRecv \/ WStopBreak \/ (WPushed /\ ~stop) \/ WRecvDisc) /\ KB /\ KA
+Writer == (WTake \/ WRecv \/ WStopBreak \/ (WPushed /\ ~stop) \/ WRecvDisc \/ WDrop) /\ KB /\ KA
 Main == (MDrop \/ MForwardEnd \/ MJoined) /\ KB /\ KA
 Collector == ((\E b \in BOOLEAN : CRecv(b) /\ (b => nstop < MaxStops) /\ nstop' = (IF b THEN nstop + 1 ELSE nstop) /\ UNCHANGED budget) \/ (CClosed /\ KB)) /\ KA
 Signal == ExtStop /\ nstop < MaxStops /\ nstop' = nstop + 1 /\ UNCHANGED budget /\ KA
@@ -38,7 +38,7 @@ CollectorLast == cpc = "done" => (mpc = "done")
 WholeOut == wout <= MaxBatches - budget
 \* no deadlock: a state without a progress step is the final state
 NoDeadlock == AllDone \/ ENABLED Progress
-TypeOK == /\ rpc \in {"check", "sending", "sent", "done"} /\ apc \in {"check", "recv", "taken", "batch", "sending", "join", "joining", "done"}
-          /\ wpc \in {"recv", "taken", "got", "done"} /\ mpc \in {"drop", "forward", "joinA", "done"} /\ cpc \in {"loop", "done"}
+TypeOK == /\ rpc \in {"check", "sending", "sent", "done"} /\ apc \in {"check", "recv", "taken", "batch", "sending", "join", "joining", "exited", "done"}
+          /\ wpc \in {"recv", "taken", "got", "exited", "done"} /\ mpc \in {"drop", "forward", "joinA", "done"} /\ cpc \in {"loop", "done"}
           /\ Len(qRA) <= ReaderCap /\ \A l \in Spawned : qV[l] <= CapOf(l)
 ===============================================================================
